@@ -463,6 +463,39 @@ def one_dataset(obs, rng, conv, spec, ctx):
             obs.sample({'convention': conv, 'grid': face.shape, 'quiver of': ['qu', 'qv'], 'dims': qu.dims, 'selected': sel,
                         'X[:4]': numpy.asarray(q.X)[:4], 'Y[:4]': numpy.asarray(q.Y)[:4], 'U[:4]': numpy.asarray(q.U)[:4],
                         'V[:4]': numpy.asarray(q.V)[:4], 'cells without geometry': holes[:6]})
+    # ---- the convenience entry point: a scalar AND a vector pair on one figure (no coast, no gridlines: nothing is
+    #      fetched or rendered); both artists must be on the axes, each paired with its own cells
+    if chance(rng, 0.4):
+        from matplotlib.collections import PolyCollection as _PC
+        from matplotlib.figure import Figure as _Figure
+        from matplotlib.quiver import Quiver as _Quiver
+        fig2 = _Figure()
+        with quiet_warnings():
+            r = obs.call('plot_on_figure(scalar=, vector=)', ems.plot_on_figure, fig2, scalar=ds['qu'].isel(sel),
+                         vector=(ds['qu'].isel(sel), ds['qv'].isel(sel)), coast=False, gridlines=False)
+        if not isinstance(r, Failed):
+            obs.cls('plot_on_figure:scalar+vector')
+            arts = [a for ax in fig2.axes for a in ax.get_children()]
+            cols = [a for a in arts if isinstance(a, _PC) and not isinstance(a, _Quiver)]     # (a Quiver is a PolyCollection too)
+            quivers = [a for a in arts if isinstance(a, _Quiver)]
+            if obs.expect(len(cols) == 1 and len(quivers) == 1, 'plot_on_figure with a scalar and a vector draws one patch collection and one quiver',
+                          lambda: {'collections': len(cols), 'quivers': len(quivers)}, mech='plot-artist-missing'):
+                vals = expected(qu, sel)[idx].astype(float) if len(idx) else numpy.array([])
+                distinct = numpy.unique(vals[~numpy.isnan(vals)])
+                # (plot_on_figure adds a colour bar, and matplotlib widens a singular norm in place: limits asserted only
+                #  when at least two different values are plotted)
+                check_collection(cols[0], qu, sel, 'plot_on_figure', default_clim=len(distinct) >= 2)
+                check_positions(quivers[0], 'plot_on_figure quiver')
+                check_components(quivers[0], expected(qu, sel), expected(qv, sel), 'plot_on_figure quiver', {'dims': qu.dims, 'selection': sel})
+    # ---- the deprecated alias must behave like make_poly_collection
+    if chance(rng, 0.4):
+        import warnings as _w
+        with _w.catch_warnings():
+            _w.simplefilter('ignore')
+            col = obs.call('make_patch_collection (deprecated alias)', ems.make_patch_collection, ds['qu'].isel(sel))
+        if not isinstance(col, Failed):
+            obs.cls('alias:make_patch_collection')
+            check_collection(col, qu, sel, 'make_patch_collection')
     if qu.extra:
         with quiet_warnings():
             exc = obs.raises('make_quiver(u, v with leftover dimensions)', ems.make_quiver, axes,
